@@ -25,7 +25,8 @@ def run(tier, seed):
         ["yaserde 0.12 is the runtime (environment); shapes it cannot carry are identified by running the identical round trip on reference structs generated from Spec.Ref (never by looking at zeep's output) and are excluded",
          "instances stay inside the carrier of the documented mapping (the unbounded integer family is carried in 32 bits: DESIGN.md 5.C04 width note)",
          "canonical lexical forms (what Rust's Display prints) so that text can be compared literally; prefix renaming in three styles"],
-        "instances from the independent generator Spec.Inst: from_str into the compiled emitted type must succeed, to_string of the result must have the instance's infoset, and ser(de(ser(v))) = ser(v); distinct = distinct instance documents")
+        "instances from the independent generator Spec.Inst: from_str into the compiled emitted type must succeed, to_string of the result must have the instance's infoset, and ser(de(ser(v))) = ser(v); distinct = distinct instance documents",
+        extra_props=[("ZeepVerif.Props.C04Ya", "ZeepVerif/Audit/C04Ya.lean")], ya=True)
 
 
 def replay(payload):
